@@ -191,6 +191,25 @@ def _warm_up():
                     pass
 
 
+def _warm_up_under_a_coarse_decimal_context():
+    """The first Decimal conversion into every prefixed scale happens while the program works at
+    four significant digits (decimal.localcontext): whatever the library works out then is that
+    computation's business and must not be what a later, full-precision conversion uses."""
+    with decimal.localcontext() as ctx:
+        ctx.prec = 4
+        for s_ in CHAIN:
+            for d_ in CHAIN:
+                for pk in PFX_KEYS:
+                    try:
+                        p = PFX[pk][0]
+                        dst = UNITS[d_] if p is None else p * UNITS[d_]
+                        (Decimal("100000") * UNITS[s_]).in_unit(dst)
+                        Decimal("20.5") * UNITS[s_] == Decimal("20.5") * dst
+                    except Exception:  # noqa -- outcomes at four digits are not judged
+                        pass
+                    WARM_UP["coarse-context"] = WARM_UP.get("coarse-context", 0) + 1
+
+
 def setup(tier):
     global M, PFX_KEYS
     if UNITS:
@@ -220,6 +239,7 @@ def setup(tier):
                 seen.add(id(p))
     PFX_KEYS = sorted(PFX, key=lambda k: (PFX[k][1], k))
     _warm_up()
+    _warm_up_under_a_coarse_decimal_context()
 
 
 def unit_of(scale, prefix):
